@@ -572,3 +572,8 @@ MUTANTS += [
  {"id": "c15-eri-block-table-misses-abba", "prop": "C15", "file": _EC, "old": "                return (\"aaaa\", \"abab\", \"abba\", \"baab\", \"baba\", \"bbbb\")", "new": "                return (\"aaaa\", \"abab\", \"baba\", \"bbbb\")"},
  {"id": "c15-amplitude-blocks-upper-equals-lower", "prop": "C15", "file": _EC, "old": "                     if block[:n].count(\"a\") == block[n:].count(\"a\")]", "new": "                     if block[:n] == block[n:]]"},
 ]
+MUTANTS += [
+ {"id": "c13-explicit-denom-lower-added", "prop": "C13", "file": _EC, "old": "            for s in tensor.lower:\n                explicit_denom -= NonSymmetricTensor(", "new": "            for s in tensor.lower:\n                explicit_denom += NonSymmetricTensor("},
+ {"id": "c13-explicit-denom-positive-exponent", "prop": "C13", "file": _EC, "old": "            explicit_denom = Pow(explicit_denom, -exponent)\n        else:\n            explicit_denom = self.sympy", "new": "            explicit_denom = Pow(explicit_denom, exponent)\n        else:\n            explicit_denom = self.sympy"},
+ {"id": "c13-explicit-denom-keeps-assumption", "prop": "C13", "file": _EC, "old": "                if n != tensor_names.sym_orb_denom\n            )\n        return Expr(explicit_denom, **assumptions)", "new": "            )\n        return Expr(explicit_denom, **assumptions)"},
+]
